@@ -180,8 +180,11 @@ HDgetdatainfo(int32 file_id, uint16 tag, uint16 ref, int32 *chk_coord, unsigned 
 
             /* This is a compressed element */
             if (sp_tag == SPECIAL_COMP) {
-                /* Read compression info header */
-                if (HP_read(file_rec, lbuf, (int)COMP_HEADER_LENGTH) == FAIL)
+                /* Read the fixed part of the compression info header that follows
+                   the special code: header version (2 bytes), uncompressed
+                   length (4) and ref# of the compressed data (2).  The coder
+                   specific part may be absent, and nothing may follow it in the file */
+                if (HP_read(file_rec, lbuf, (int)8) == FAIL)
                     HGOTO_ERROR(DFE_READERROR, FAIL);
 
                 /* Decode header to get data length */
